@@ -115,3 +115,14 @@ func (c *Client) VerifValidateVirtualChannelSettlementProposal(ch *Channel, prop
 func VerifTransformBalances(b channel.Balances, numParts int, indexMap []channel.Index) channel.Balances {
 	return transformBalances(b, numParts, indexMap)
 }
+
+// VerifNewUpdateResponder creates the responder that handleUpdateReq creates
+// for an update request of the channel peer.
+func (c *Channel) VerifNewUpdateResponder(req ChannelUpdateProposal) *UpdateResponder {
+	return &UpdateResponder{
+		channel: c,
+		pidx:    c.Idx() ^ 1,
+		req:     req,
+		done:    make(chan struct{}, 1),
+	}
+}
